@@ -572,6 +572,8 @@ def seed_inputs_deterministic(ctx, R, tool, ds_cls):
                         if (isinstance(x.func, ast.Name) and x.func.id in NONDET_NAMES) or any(q.startswith(pre) for pre in NONDET_QUAL):
                             bad.append(x)
                     if isinstance(x, ast.Name) and isinstance(x.ctx, ast.Load):
+                        if isinstance(actual.get("seed"), ast.Name) and x.id == actual["seed"].id:
+                            continue  # the base seed folded into a table: it has its own rule (it may be random when --seed is absent)
                         for d in rd.reaching(at, x.id):
                             if d.kind in ("assign", "aug") and d.value is not None and (d.node, x.id) not in seen:
                                 seen.add((d.node, x.id))
